@@ -30,6 +30,10 @@ ASSUMPTIONS = [
     'text decoding by the caller of an already-open stream is outside the library',
 ]
 
+ENGINES = ['pyindex', 'paths', 'grammar']
+TECHNIQUE = ('static analysis (ast): route table by path enumeration with clean/raw tracking of the text, keyword forwarding per hop, codec of every open() on the call closure of the '
+             'routes; line-break tokens and regular-expression skippers of the grammar IR (a carriage return is skipped wherever a line break is accepted)')
+
 PARSER_MOD = 'pydbml.parser.parser'
 OPTIONS = ('allow_properties', 'sql_renderer', 'dbml_renderer')
 UTF8 = {'utf8', 'utf-8', 'utf_8', 'u8', 'utf', 'utf-8-sig', 'utf_8_sig', 'utf8-sig'}
